@@ -51,10 +51,18 @@ def run(ctx):
                 desc = {"ctor": "Wavefunction", "nele": nele, "m_s": ms, "norb": norb}
                 if (model != "raise") != valid:
                     ctx.disagree("sectors:model-vs-arithmetic", f"model {model} arithmetic valid={valid}", desc)
-                for ctor in ("Wavefunction", "get_wavefunction"):
+                for ctor in ("Wavefunction", "get_wavefunction", "get_wavefunction_multiple"):
                     try:
-                        w = fqe.Wavefunction([[nele, ms, norb]]) if ctor == "Wavefunction" else \
-                            fqe.get_wavefunction(nele, ms, norb)
+                        if ctor == "get_wavefunction_multiple":
+                            # the list form: one wavefunction per parameter triple, in order (a valid one put first)
+                            ws = fqe.get_wavefunction_multiple([[0, 0, norb], [nele, ms, norb]])
+                            if len(ws) != 2 or set(ws[0].sectors()) != {(0, 0)}:
+                                ctx.disagree("sectors:get_wavefunction_multiple-order", f"returned {len(ws)} objects, first sectors "
+                                             f"{sorted(ws[0].sectors()) if ws else None}", {**desc, "ctor": ctor})
+                            w = ws[1]
+                        else:
+                            w = fqe.Wavefunction([[nele, ms, norb]]) if ctor == "Wavefunction" else \
+                                fqe.get_wavefunction(nele, ms, norb)
                         raised = False
                     except Exception:
                         raised = True
